@@ -39,7 +39,7 @@ def validated_signs(sx: SX, cls: str):
                 if t is not None:
                     sa = _single_atom(t)
                     if sa and sa[1]:
-                        param_field.setdefault(sa[0], set()).add(f'self.{e[2]}')
+                        param_field.setdefault(sa[0], set()).add(f'self.{sx.canon_field(cls, e[2])}')
     facts = {}
     params = set(param_field)
     for p in params:
@@ -115,7 +115,7 @@ def ctor_field_defs(sx: SX, cls: str):
             if t is not None:
                 sa = _single_atom(t)
                 if sa and sa[1] and sa[0] in pnames:
-                    param_to_field.setdefault(sa[0], f'self.{f}')
+                    param_to_field.setdefault(sa[0], f'self.{sx.canon_field(cls, f)}')
     mapping = {}
     from .algebra import Rat
     for p, f in param_to_field.items():
@@ -146,7 +146,7 @@ def ctor_field_defs(sx: SX, cls: str):
                 if a in param_to_field:
                     sub[a] = Rat.atom(param_to_field[a])
             t2 = ctx.subst(t, sub) if sub else t
-            name = f'self.{f}'
+            name = f'self.{sx.canon_field(cls, f)}'
             if name in defs and not ctx.eq(defs[name], t2):
                 conflict.add(name)
             defs[name] = t2
